@@ -363,6 +363,51 @@ def run(out, tier):
     verdict(out, pr, "J2.jumpdest_only_at_instruction_boundary", paths, post_j2, pre=pre, kinds=("cut", "return"),
             what="an entry is JUMPDEST exactly when its byte is 0x5b and it is not a push immediate (immediates are Nop entries)")
 
+    # ---------------- D3: the decoder table against the specification's opcode list ------------------------------------
+    # For every byte value: the type of the entry the decoder appends for a byte consumed outside a push is the type the
+    # Yellow Paper assigns to that byte (unassigned bytes and 0xfe: Invalid).  Round-trip alone cannot see two rows swapped
+    # together with their `as_byte` values.
+    from . import optable
+    names = sorted(set(optable.SINGLE.values()) | {n for _, _, n in optable.RANGES} | {"Invalid"})
+    ident = {n: i + 1 for i, n in enumerate(names)}
+
+    def ref_id(b):
+        e = z3.IntVal(ident["Invalid"])
+        for byte, n in optable.SINGLE.items():
+            e = z3.If(b == z3.BitVecVal(byte, 8), z3.IntVal(ident[n]), e)
+        for lo, hi, n in optable.RANGES:
+            e = z3.If(z3.And(z3.UGE(b, z3.BitVecVal(lo, 8)), z3.ULE(b, z3.BitVecVal(hi, 8))), z3.IntVal(ident[n]), e)
+        return e
+    d3_seen = set()
+
+    def post_d3(p):
+        ctx = p.ctx
+        st = state_of(ctx.frame0, ctx)
+        entries = enc.entries(ctx, st["ops"].pushed)
+        if not entries:
+            return z3.BoolVal(True)
+        b = z3.Select(B, P)
+        e = entries[0]
+        if e[0] == "push":
+            tname = "PushN"
+        elif e[0] == "byte":
+            tname = e[2]
+        else:
+            return z3.BoolVal(True)
+        d3_seen.add(tname)
+        if tname not in ident:
+            return z3.Implies(SIZE == 0, z3.BoolVal(False))        # a type the specification does not know
+        is_push = z3.And(z3.UGE(b, 0x60), z3.ULE(b, 0x7f))
+        ok_ = ref_id(b) == ident[tname]
+        if tname == "Invalid":
+            # a PUSH cut short by the end of the code is decoded as Invalid entries (epilogue)
+            ok_ = z3.Or(ok_, is_push)
+        return z3.Implies(SIZE == 0, ok_)
+    verdict(out, pr, "D3.decoder_table_matches_specification", paths, post_d3, pre=pre, kinds=("cut", "return"),
+            replay=lambda p, model: native.scenario(out, "decoder_table", {}), key="decoder-table-differs-from-specification",
+            what="for every byte, the entry appended for a byte consumed outside a push has the opcode type the specification assigns to that byte")
+    out.extra["decoder_types_seen"] = sorted(d3_seen)
+
     # ---------------- T: whole runs on a PUSH cut short by the end of the code (bounded, complements D2) ------------
     # input = [PUSHn, b1..bk] with n > k >= 0 symbolic immediates: every entry must be Invalid with its own byte
     for k in ((0, 1, 2) if tier == "quick" else (0, 1, 2, 3, 5)):
